@@ -281,7 +281,12 @@ class SM:
             while term[0] == "unop" and term[1] == "Not":
                 term = term[2]
                 flip = not flip
-            if not pred(n, term):
+            # a condition merged from several sources counts only if every source satisfies the predicate
+            # (`let ok = if shortcut { true } else { really_checked() }; if ok {..}` is not a test of really_checked())
+            if term[0] == "phi":
+                if not all(pred(n, _unflip(a)) for a in term[1]):
+                    continue
+            elif not pred(n, term):
                 continue
             for b in S.succ[n.idx]:
                 labs = [l[2] for l in S.elabel.get((n.idx, b), []) if l[0] == "switch" and l[1] == n.bi]
@@ -505,6 +510,13 @@ def reach_pf(S, starts, cut_edges=(), cut_nodes=(), facts0=()):
                             out[(wn.ctx.idx, d["l"])] = rv
                         else:
                             out[(wn.ctx.idx, ("rdy", d["l"]))] = rv
+            elif t["k"] == "call" and wn.ctx is not nd.ctx and wn.ctx.parent is nd.ctx and w == wn.ctx.entry and wn.ctx.how[0] == "call":
+                # call edge into a spliced synchronous callee: facts of plain-local arguments become facts of its parameters
+                out = dict(fd)
+                for i_, a_ in enumerate(t["args"]):
+                    pl_ = a_.get("m") or a_.get("c")
+                    if pl_ and not pl_.get("p") and (cid, pl_["l"]) in fd:
+                        out[(wn.ctx.idx, i_ + 1)] = fd[(cid, pl_["l"])]
             nf = frozenset(out.items())
             old = IN.get(w)
             if old is None:
@@ -656,3 +668,9 @@ if __name__ == "__main__":
     S = sm.S_run if len(sys.argv) < 2 or sys.argv[1] == "run" else sm.S_check
     print("nodes", len(S.nodes), "ctxs", len(S.ctxs))
     dump_skeleton(sm, S, sys.stdout)
+
+
+def _unflip(t):
+    while t[0] == "unop" and t[1] == "Not":
+        t = t[2]
+    return t
